@@ -42,7 +42,26 @@ def _workdir(tag):
     return d
 
 
-def run(module, cfg=None, tag=None, workers=16, timeout_s=600, simulate=None, depth=None,
+def run(module, cfg=None, tag=None, require_emit=True, retries=1, **kw):
+    """run_once with a sanity guard: a generator configuration that emits nothing (TLC explored no successor state) is a
+    machinery failure, never a silent pass. One retry, with the first failure reported on stderr."""
+    import sys
+    last = None
+    for attempt in range(retries + 1):
+        try:
+            res = run_once(module, cfg, tag, **kw)
+            if require_emit and not res.emitted and not res.printed and res.violated is None:
+                raise TlcFailure("TLC finished but emitted nothing (%d states generated): %s" % (res.generated, res.cmd))
+            return res
+        except TlcFailure as e:
+            last = e
+            if "timed out" in str(e) or "SANY" in str(e) or "Parsing or semantic" in str(e) or "violation of" in str(e):
+                break
+            sys.stderr.write("tlc: attempt %d failed: %s\n" % (attempt + 1, str(e)[:400]))
+    raise last
+
+
+def run_once(module, cfg=None, tag=None, workers=16, timeout_s=600, simulate=None, depth=None,
         seed=None, env=None, coverage=False, heap="8g", deque=False, extra=None, keep=False,
         allow_violation=False):
     """Model-check spec/mc/<module>.tla with spec/mc/<cfg or module>.cfg.
